@@ -5,6 +5,7 @@ import (
 	"fmt"
 	"os"
 	"sort"
+	"strings"
 
 	"pgregory.net/rapid"
 
@@ -67,4 +68,28 @@ func DebugRender(replay, dir string) {
 	r := &Renderer{S: &s, M: NewModel(&s)}
 	WriteTree(dir, r.Files())
 	fmt.Println("rendered to", dir)
+}
+
+// DebugCycles draws n programs from the named generator and reports the first
+// few whose rendered packages import the root package (an import cycle).
+func DebugCycles(which string, seed uint64, n int) {
+	gens := map[string]func() *rapid.Generator[*Spec]{"C05": genC05, "C06": genC06, "C08": genC08, "C09": genC09, "C11": genC11, "C12": genC12, "C13": genC13}
+	g := gens[which]
+	bad := 0
+	RapidCheck("debug", n, seed, 0, func(t *rapid.T) {
+		s := g().Draw(t, "program")
+		s.SetName("dbg")
+		r := &Renderer{S: s, M: NewModel(s)}
+		for name, src := range r.Files() {
+			if !strings.Contains(name, "/") {
+				continue
+			}
+			if strings.Contains(src, "\"example.com/m/progs/dbg\"") && bad < 2 {
+				bad++
+				b, _ := json.Marshal(s)
+				fmt.Printf("=== %s imports root; note=%s\n%s\n--- %s\n%s\n", name, s.Note, b, name, src)
+			}
+		}
+	})
+	fmt.Println("bad", bad)
 }
